@@ -228,3 +228,38 @@ def fmt_of(body, term_or_operand):
     tpl = fmt_template(const_val(c[2][0]))
     args = find_terms(c[2][1], lambda x: is_call(x, name='new_display') or is_call(x, name='new_debug'))
     return tpl, [a[2][0] for a in args]
+
+
+def copy_field_agreement(R, rule, keyprefix, body, agg, src_pred=None):
+    """every field of aggregate `agg` (from mirlib.aggregates) must be initialised from the same-named field of the source
+    (clone / copy constructors).  Fields whose value does not derive from any field at all are skipped."""
+    bb, i, p, a, ops = agg
+    n = 0
+    for fname, op in zip(a.get('fields', []), ops):
+        v = body.origin(op)
+        srcs = [x[2] for x in find_terms(v, lambda x: x and x[0] == 'field' and isinstance(x[2], str))]
+        if not srcs:
+            continue
+        n += 1
+        ok = fname in srcs
+        R.check(ok, rule, '%s:%s' % (keyprefix, fname), site(body, bb, i), 'field %s of %s is initialised from %s' % (fname, (a.get('adt') or '').split('::')[-1], show(v)[:80]))
+    return n
+
+
+def on_every_path(t, pred):
+    """does the value reach here through a sub-term satisfying pred on *every* alternative (phi = all, other nodes = any operand)?"""
+    if pred(t):
+        return True
+    if not isinstance(t, tuple) or not t:
+        return False
+    kids = []
+    for x in t[1:]:
+        if isinstance(x, tuple):
+            kids.append(x)
+        elif isinstance(x, list):
+            kids.extend(y for y in x if isinstance(y, tuple))
+    if not kids:
+        return False
+    if t[0] == 'phi':
+        return all(on_every_path(k, pred) for k in kids)
+    return any(on_every_path(k, pred) for k in kids)
